@@ -566,7 +566,7 @@ func plantNumeric(r *rng.R, p *Prog, g *gen) string {
 func runC09(c *checker, r *rng.R) {
 	n := 100000
 	if *tier == "thorough" {
-		n = 150000
+		n = 1500000
 	}
 	for i := 0; i < n; i++ {
 		cfg := genCfg{maxFiles: 1 + r.Intn(2), maxTypes: 1 + r.Intn(5), maxConsts: 1 + r.Intn(5), maxServices: r.Intn(2),
